@@ -17,7 +17,7 @@ META = dict(
     text="for each pairing record x controller ephemeral key x transport decode style, the honest M2/M4 produced by a "
     "reference accessory and every member of a declared adversary alphabet are fed to get_session_keys; a reference "
     "acceptor (spec logic, own crypto glue) classifies each reply as honest / authentic variant / forged; forged must raise, "
-    "honest must return keys that equal the reference accessory's and the accessory must accept M3; resume likewise Also: M2 fields cut in two around a foreign item and structural M2 edits end to end on IP / CoAP / BLE; two BLE pairings in one process; the verified session through the connection layer (reconnection harness, 'c01:' invariants: connected only after the accessory completed pair-verify, no application request in the clear).",
+    "honest must return keys that equal the reference accessory's and the accessory must accept M3; resume likewise Also: M2 fields cut in two around a foreign item and structural M2 edits end to end on IP / CoAP / BLE; two BLE pairings in one process; the verified session through the connection layer (reconnection harness, 'c01:' invariants: connected only after the accessory completed pair-verify, no application request in the clear). Also CoAP: the session is lost (accessory restart / reconnect) and pair-verify runs again on the same objects, 2 and 3 sessions: an event under the new event key is delivered, one under any lost session's event key is not.",
     note="cryptographic strength outside the alphabet rests on Ed25519/X25519/ChaCha20-Poly1305/HKDF and the cryptography wheel",
     design_ref="DESIGN.md §4 C01",
     rule="a case = (record, ephemeral, decode style, fault, argument); distinct = distinct tuple; non-trivial = the fault produced a reply "
